@@ -543,6 +543,10 @@ func writeReplay(prop string, o obligationSpec, f findingOut, params map[string]
 	b, _ := json.MarshalIndent(rf, "", " ")
 	h := sha1.Sum(b)
 	dir := filepath.Join(verifDir, "replays", prop)
+	if os.Getenv("VF_REPO") != "" {
+		// a run against a scratch copy (seeded change, mutant): keep its replays out of /verif
+		dir = filepath.Join(os.TempDir(), "vf-seed-replays", prop)
+	}
 	os.MkdirAll(dir, 0o755)
 	name := strings.NewReplacer("/", "_", " ", "_").Replace(o.ID)
 	p := filepath.Join(dir, fmt.Sprintf("%s-%x.json", name, h[:4]))
